@@ -37,6 +37,8 @@ func c09(c *Ctx) (*report.Result, error) {
 	res.RuleDoc["O9.5"] = "a claim is stamped when it is made: every registration stores (and returns) that call's own time.Now() in localShards, so the stamp an incoming announcement is compared with is never older than the claim this instance last announced (a re-registration that keeps the old stamp lets a stale announcement evict the newest claim)"
 	checkFreshTokens(c, res, "O9.5")
 	checkLeave(c, res)
+	res.RuleDoc["O9.7"] = "the local-claim table is keyed injectively by (cluster id, shard id) (same analysis as O8.9): an announcement for one shard can only evict the local claim of that very shard"
+	checkShardKeyFunction(c, res, "O9.7")
 	res.RuleDoc["O9.6"] = "intra-proxy streams are pruned only when nobody claims their shard pair any more: in ReconcilePeerStreams a registered receiver/sender entry is queued for closing only on the 'key absent from the desired map' outcome - the desired maps hold one (arbitrary) peer per key, so while two peers claim a shard a test on the peer's name would prune the newest owner's stream, which is never re-created from this side"
 	checkReconcilePrune(c, res, "O9.6")
 	checkIntraSenders(c, res)
